@@ -76,6 +76,56 @@ theorem C05_neighbors (fs : List Face) (nV v w : Nat) (hv : v < nV) :
       (w ∈ l ↔ sortEdge (v, w) ∈ edgesSorted fs)) := by
   exact vertexNeighbors_spec fs nV v w hv
 
+/-- **unshared vertex = the corner off the shared edge, by counting**: the reported vertex is a corner of the face
+    that is neither end of the edge, and it is reported exactly when one corner (counted with multiplicity)
+    qualifies; in particular for a face with three different corners that contains both ends of the edge it is
+    the third corner, and for a degenerate face that has no or several such corners nothing (`-1`) is reported -/
+theorem C05_unshared (f : Face) (e : Edge) :
+    (∀ v, unsharedOf f e = some v ↔ [f.1, f.2.1, f.2.2].filter (fun x => x != e.1 && x != e.2) = [v]) ∧
+    (∀ v, unsharedOf f e = some v → (v = f.1 ∨ v = f.2.1 ∨ v = f.2.2) ∧ v ≠ e.1 ∧ v ≠ e.2) ∧
+    (unsharedOf f e = none ↔ ([f.1, f.2.1, f.2.2].filter (fun x => x != e.1 && x != e.2)).length ≠ 1) := by
+  unfold unsharedOf
+  refine ⟨?_, ?_, ?_⟩
+  · intro v
+    split
+    · rename_i w hw; rw [hw]; simp
+    · rename_i hne
+      constructor
+      · intro h; cases h
+      · intro h; exact absurd h (hne v)
+  · intro v
+    split
+    · rename_i w hw
+      intro h
+      cases h
+      have hm : v ∈ [f.1, f.2.1, f.2.2].filter (fun x => x != e.1 && x != e.2) := by rw [hw]; simp
+      rw [List.mem_filter] at hm
+      simp only [List.mem_cons, List.not_mem_nil, or_false, Bool.and_eq_true, bne_iff_ne] at hm
+      exact ⟨hm.1, hm.2.1, hm.2.2⟩
+    · intro h; cases h
+  · split
+    · rename_i w hw; rw [hw]; simp
+    · rename_i hne
+      simp only [true_iff]
+      intro hl
+      match hq : [f.1, f.2.1, f.2.2].filter (fun x => x != e.1 && x != e.2), hl with
+      | [v], _ => exact hne v hq
+
+/-- instance: faces (a, b, c) and (b, a, d) sharing the edge {a, b}, all four vertices different: the unshared
+    vertices are `c` and `d` -/
+theorem C05_unshared_manifold (a b c d : Nat) (hab : a ≠ b) (hac : a ≠ c) (hbc : b ≠ c) (had : a ≠ d) (hbd : b ≠ d) :
+    unsharedOf (a, b, c) (sortEdge (a, b)) = some c ∧ unsharedOf (b, a, d) (sortEdge (a, b)) = some d := by
+  have h1 : ∀ x y : Nat, (sortEdge (x, y)).1 = min x y ∧ (sortEdge (x, y)).2 = max x y := by
+    intro x y; simp [sortEdge]
+  unfold unsharedOf
+  rcases Nat.lt_or_ge a b with h | h
+  · have e1 : (sortEdge (a, b)) = (a, b) := by simp [sortEdge, Nat.min_eq_left (Nat.le_of_lt h), Nat.max_eq_right (Nat.le_of_lt h)]
+    rw [e1]
+    simp [hab, hac, hbc, had, hbd, Ne.symm hab, Ne.symm hac, Ne.symm hbc, Ne.symm had, Ne.symm hbd]
+  · have e1 : (sortEdge (a, b)) = (b, a) := by simp [sortEdge, Nat.min_eq_right h, Nat.max_eq_left h]
+    rw [e1]
+    simp [hab, hac, hbc, had, hbd, Ne.symm hab, Ne.symm hac, Ne.symm hbc, Ne.symm had, Ne.symm hbd]
+
 /-- connectivity of nodes `< n` through the (undirected) edge list -/
 inductive Conn (n : Nat) (es : List (Nat × Nat)) : Nat → Nat → Prop where
   | refl (a : Nat) : Conn n es a a
